@@ -7,6 +7,9 @@
 //	tuples     Date.UTC(...) and new Date(y, m, ...) field tuples with <= 2 deviating components (E1)
 //	offsets    the 3^7 product of {-1,0,+1} offsets of two base tuples
 //	isoforms   every 15.9.1.15 shape (date-only / date-time forms, Z and +-HH:mm offsets) of a date set
+//	isoyears   expanded-year (+-YYYYYY) and four-digit texts over a leap-class year lattice x month/day lattice,
+//	           direct parse (nonexistent days -> NaN) and toISOString -> parse round trip
+//	reentrant  setters called with logging / mutating / throwing valueOf arguments: step order of 15.9.5.27-41
 //	history    E2 BFS over the time value under the 8 UTC setters + setTime
 package c12
 
@@ -39,6 +42,9 @@ func init() {
 			"(non-trivial = valid time value; when toISOString agrees with the model the parsed text is the text toISOString produced). " +
 			"tuples: E1 choice tree over (base tuple, arity 2..7, Date.UTC | new Date) with <= 2 components replaced by a deviation value; offsets: full 3^7 product. " +
 			"non-trivial = expected result is a number. isoforms: every ISO shape x date set. " +
+			"isoyears: year lattice (all four Gregorian leap classes, negative / around 0 / 10000..10400 / range ends) x month-day lattice x {date-only, full} texts, expanded and four-digit spelling; valid dates also go through the instants observations. " +
+			"reentrant: setter x arity 1..max+1 x {5,40,NaN}^arity x (no probe | position x 6 actions) x 3 receivers, every argument an object with a logging valueOf; " +
+			"non-trivial = a probe acts or the receiver is invalid. " +
 			"history: BFS over time values from 5 initial values under all setter operations, dedup on the model time value; every transition is " +
 			"executed on a real Date object built by replaying the shortest path and compared on return value, getTime, valueOf and the 8 accessors; " +
 			"non-trivial = pre-state or post-state is a valid date.",
@@ -48,12 +54,16 @@ func init() {
 			{Name: "tuples", Run: runTuples},
 			{Name: "offsets", Run: runOffsets},
 			{Name: "isoforms", Run: runISOForms},
+			{Name: "isoyears", Run: runISOYears},
+			{Name: "reentrant", Run: runReentrant},
 			{Name: "history", Run: runHistory},
 		},
 		Assumptions: []string{
 			"ref/date is a faithful transcription of ES5.1 15.9.1.2-15.9.1.15, 15.9.3.1-2, 15.9.4.3, 15.9.5.27-41 (integer arithmetic, no use of Go's time package); it is self-checked (MakeDay/MakeTime invert the accessor formulas on every swept instant; cycle length 146097 days)",
 			"local time zone is UTC in the workers (TZ=UTC and time.Local = time.UTC), so the constructor's UTC(t) is the identity",
-			"arguments are primitives (numbers, undefined, null, one numeric string); ToNumber of these is taken from 9.3, not from otto",
+			"arguments are primitives (numbers, undefined, null, one numeric string); ToNumber of these is taken from 9.3, not from otto; only the reentrant family passes objects, whose valueOf is harness code returning a number",
+			"reentrant: the inner setter calls made from valueOf use primitive arguments and are modelled by the same ref/date.Apply the history family validates",
+			"isoyears: a day that does not exist in its month (02-29 of a common year, 02-30, 02-31, 04-31) is an illegal element value in the sense of 15.9.4.2 and must give NaN",
 			"a Date object's state is its time value: receivers for the instant family are built with new Date(t); history receivers are built by replaying the recorded setter path on a fresh object",
 			"observations are rendered in-script by String(number); all compared numbers are integers below 2^53 (or NaN) where otto's number formatting is not in question",
 		},
@@ -66,6 +76,7 @@ func init() {
 		"c12-no-timeclip":         'C',
 		"c12-year-test-no-toint":  'Y',
 		"c12-setfullyear-nan":     'S',
+		"c12-setter-shortcircuit": 'O',
 		"c12-settime-stays-nan":   'T',
 		"c12-iso-year-go-layout":  'I',
 		"c12-iso-invalid-nothrow": 'R',
@@ -185,6 +196,38 @@ const prelude = `
     return r;
   };
   global.__parse = function(s) { return v(Date.parse(s)) + "," + v(new Date(s).getTime()); };
+  // round trip: text produced by toISOString parsed back
+  global.__rt = function(t) {
+    var s;
+    try { s = new Date(t).toISOString(); } catch (e) { return "throw:" + (e && e.name); }
+    return v(s) + "|" + v(Date.parse(s)) + "," + v(new Date(s).getTime());
+  };
+  // re-entrant setters: every argument is an object whose valueOf logs "<index>@<receiver time value>;",
+  // optionally (index ppos) mutates the receiver or throws, and returns the argument's number.
+  var SN = ["setUTCMilliseconds", "setUTCSeconds", "setUTCMinutes", "setUTCHours", "setUTCDate", "setUTCMonth", "setUTCFullYear", "setTime"];
+  var marker = {};
+  global.__reent = function(init, s, k, a0, a1, a2, a3, a4, ppos, pkind) {
+    var d = new Date(init), log = "", vals = [a0, a1, a2, a3, a4], args = [], r;
+    function mk(i) {
+      return { valueOf: function() {
+        log += i + "@" + v(d.getTime()) + ";";
+        if (i === ppos) {
+          switch (pkind) {
+          case 1: d.setTime(0); break;
+          case 2: d.setTime(NaN); break;
+          case 3: d.setUTCHours(7); break;
+          case 4: d.setUTCMonth(5, 1); break;
+          case 5: d.setUTCFullYear(1999); break;
+          case 6: throw marker;
+          }
+        }
+        return vals[i];
+      } };
+    }
+    for (var i = 0; i < k; i++) args.push(mk(i));
+    try { r = v(d[SN[s]].apply(d, args)); } catch (e) { r = e === marker ? "throw:marker" : "throw:" + (e && e.name); }
+    return log + "|" + r + "|" + v(d.getTime()) + "," + v(d.valueOf()) + "|" + fields(d);
+  };
   global.__fields = function(op, k, a, b, c, d, e, f, g) {
     if (op === 0) {
       switch (k) {
@@ -242,8 +285,8 @@ const prelude = `
 // state, so reuse cannot matter; the runtime is nevertheless replaced after
 // any error or Go panic.
 type machine struct {
-	vm                             *otto.Otto
-	inst, parse, fields, hist, und otto.Value
+	vm                                        *otto.Otto
+	inst, parse, rt, reent, fields, hist, und otto.Value
 }
 
 func newMachine() (*machine, error) {
@@ -253,7 +296,7 @@ func newMachine() (*machine, error) {
 	}
 	m := &machine{vm: vm, und: otto.UndefinedValue()}
 	var err error
-	for name, dst := range map[string]*otto.Value{"__inst": &m.inst, "__parse": &m.parse, "__fields": &m.fields, "__hist": &m.hist} {
+	for name, dst := range map[string]*otto.Value{"__inst": &m.inst, "__parse": &m.parse, "__rt": &m.rt, "__reent": &m.reent, "__fields": &m.fields, "__hist": &m.hist} {
 		if *dst, err = vm.Get(name); err != nil || !dst.IsFunction() {
 			return nil, fmt.Errorf("prelude: %s missing", name)
 		}
